@@ -45,7 +45,7 @@ def judge(work, rep, c, trace_path, name="judge", timeout=3600):
     r = tlc(work, "MC_Trace_Witness", cfg, name=name, workers=1, timeout=timeout, heap="12g")
     if not r.ok:
         raise Inconclusive("judge failed: %s\n%s" % (r.error or r.violated, r.out[-3000:]))
-    return r.tuples("FAIL")
+    return [["FAIL", f["id"], f["name"], f["i"], f["run"], f["k"], f["sig"]] for f in map(json.loads, r.prints("FAIL"))]
 
 
 def execute(work, rep, c, runs, stores, embeds, seed, http=False, keyof=None, tag="t"):
@@ -122,12 +122,11 @@ def finish_counts(rep):
     rep.cov["distinct_nontrivial"] = len(rep.cov.pop("_distinct", set()))
 
 
-def walks(graph, init, n, depth, rng, nwit, prefix="w", want=None, reads=True):
-    runs = []
+def walks(graph, init, n, depth, rng, prefix="w", want=None):
+    """n random walks over the emitted transition graph; returns [(run, final abstract state)]"""
+    res = []
     for j in range(n):
         path = graph.walk(init, depth, rng, want)
-        steps = []
-        for e in path:
-            steps.append(act_step(e["act"]))
-        runs.append({"id": "%s%d" % (prefix, j), "steps": steps})
-    return runs
+        final = path[-1]["post"] if path else init
+        res.append(({"id": "%s%d" % (prefix, j), "steps": [act_step(e["act"]) for e in path]}, final))
+    return res
